@@ -324,6 +324,13 @@ theorem ff_gate {cs ss : Settings} {cc : ClientCfg} {v : Nat} (h : dhShared cs s
       · rfl
       · exact h.1
 
+theorem mem_certUsable_iff {l : List Nat} {c : Option Cred} {v s : Nat} :
+    s ∈ certUsable l c v ↔ s ∈ l ∧ s ∈ certUsable [s] c v := by
+  unfold certUsable
+  split
+  · simp
+  · exact mem_filterForCertificate_iff
+
 /-- a common suite that works is in the gated list -/
 theorem works_mem_gated {cs ss : Settings} {cc : ClientCfg} {cred : Cred} {v s : Nat} (hv4 : v ≤ 4)
     (hs : s ∈ filterForVersion (certFamily ss v) v) (hw : suiteWorks cs ss cc cred v s = true) :
@@ -452,7 +459,12 @@ theorem pickSig_of_shared {cs ss : Settings} {cc : ClientCfg} {cred : Cred} {v :
   have hso : (clientOffer cs cc).sigAlgs = clientSigAlgs cs := rfl
   unfold sigShared at h
   unfold pickSig
-  rw [hso]
+  by_cases hlt : v < 3
+  · rw [if_pos hlt]
+    exact ⟨0, rfl, fun h0 => absurd rfl h0, fun h4 => by omega⟩
+  rw [if_neg hlt, hso]
+  have hd : decide (v < 3) = false := by simpa using hlt
+  rw [hd, Bool.false_or] at h
   cases hca : clientSigAlgs cs with
   | none =>
     refine ⟨0, rfl, fun h0 => absurd rfl h0, fun h4 => ?_⟩
@@ -470,16 +482,13 @@ theorem pickSig_of_shared {cs ss : Settings} {cc : ClientCfg} {cred : Cred} {v :
     obtain ⟨y, hy⟩ := firstMatching_isSome ha1 (List.contains_iff_mem.mp ha2)
     obtain ⟨hy1, hy2⟩ := firstMatching_some hy
     have hacc := hall y hy1
-    simp only [Bool.or_eq_true, Bool.not_eq_eq_eq_not, Bool.not_true, decide_eq_true_eq,
-      List.contains_iff_mem] at hacc
-    have hacc' : 3 ≤ v → y ∈ sigHashesToList cs none (some cred) (if v > 3 then 4 else 3) := by
-      intro h3
-      rcases hacc with (hh | hh) | hh
+    simp only [Bool.or_eq_true, Bool.not_eq_eq_eq_not, Bool.not_true, List.contains_iff_mem] at hacc
+    have hacc' : y ∈ sigHashesToList cs none (some cred) (if v > 3 then 4 else 3) := by
+      rcases hacc with hh | hh
       · rw [List.contains_iff_mem.mpr hy2] at hh; cases hh
-      · omega
       · exact hh
-    refine ⟨y, hy, fun _ h3 => ⟨by simpa [Option.getD] using hy2, hacc' h3⟩, fun h4 => ⟨by simpa [Option.getD] using hy2, ?_⟩⟩
-    have := hacc' (by omega)
+    refine ⟨y, hy, fun _ _ => ⟨by simpa [Option.getD] using hy2, hacc'⟩, fun h4 => ⟨by simpa [Option.getD] using hy2, ?_⟩⟩
+    have := hacc'
     rw [if_pos (by omega)] at this
     exact this
 
@@ -530,17 +539,17 @@ theorem selectCertificate_of_compatible {cs ss : Settings} {cc : ClientCfg} {sc 
     | nil => rw [hl] at hne; cases hne
     | cons a t => exact ⟨a, List.mem_cons_self⟩
   have hmem_common : ∀ x, x ∈ commonSuites cs ss cred v →
-      x ∈ filterForCertificate (filterForVersion (gatedFamily ss (clientOffer cs cc) v) v) (some cred) ∧
+      x ∈ certUsable (filterForVersion (gatedFamily ss (clientOffer cs cc) v) v) (some cred) v ∧
       (clientOffer cs cc).suites.contains x = true := by
     intro x hx
     have hw := List.all_eq_true.mp hall x hx
     unfold commonSuites at hx
     obtain ⟨hx1, hx2⟩ := List.mem_filter.mp hx
-    rw [mem_filterForCertificate_iff] at hx1 ⊢
+    rw [mem_certUsable_iff] at hx1 ⊢
     exact ⟨⟨works_mem_gated hv4 hx1.1 hw, hx1.2⟩, by rw [hos]; exact hx2⟩
   unfold selectCertificate
   rw [hc, prfFiltered_no_psk hpsk]
-  cases hfind : (filterForCertificate (filterForVersion (gatedFamily ss (clientOffer cs cc) v) v) (some cred)).find?
+  cases hfind : (certUsable (filterForVersion (gatedFamily ss (clientOffer cs cc) v) v) (some cred) v).find?
       ((clientOffer cs cc).suites.contains ·) with
   | none =>
     have := List.find?_eq_none.mp hfind s (hmem_common s hs).1
@@ -555,11 +564,11 @@ theorem selectCertificate_of_compatible {cs ss : Settings} {cc : ClientCfg} {sc 
       rw [ok_bind hcurve']; rfl
     · unfold commonSuites
       rw [List.mem_filter]
-      rw [mem_filterForCertificate_iff] at h1 ⊢
+      rw [mem_certUsable_iff] at h1 ⊢
       refine ⟨⟨?_, h1.2⟩, by rw [← hos]; exact h2⟩
       rw [mem_filterForVersion_iff] at h1 ⊢
       exact ⟨gated_sub_family h1.1.1, h1.1.2⟩
-    · exact (mem_filterForCertificate_iff.mp h1).1
+    · exact (mem_certUsable_iff.mp h1).1
 
 /-! ## the server's first flight, TLS ≤ 1.2 -/
 
@@ -666,8 +675,7 @@ theorem ecSelect_of_shared {cs ss : Settings} {cc : ClientCfg} {v s : Nat}
           cgl.all fun g => !(curveNamesToList ss v).contains g || (curveNamesToList cs 4).contains g) = true →
         ∃ g, (match firstMatching cgl (curveNamesToList ss v) with
               | some g => Outcome.ok g
-              | none => if isAnonSuite s = true then Outcome.abort Side.server "TLSInsufficientSecurity"
-                        else Outcome.alert Side.server "insufficient_security") = Outcome.ok g ∧
+              | none => Outcome.alert Side.server "insufficient_security") = Outcome.ok g ∧
              (True → (curveNamesToList cs 4).contains g = true) := by
       intro cgl hsh
       simp only [Bool.and_eq_true, List.any_eq_true, List.all_eq_true] at hsh
@@ -748,6 +756,8 @@ theorem clientAccept12_forward {cs : Settings} {cc : ClientCfg} {sc : ServerCfg}
   have hcr : clientCheckCertReq sel = .ok () := by unfold clientCheckCertReq; rw [hreq]; rfl
   have hsig : clientSig12 cs (if sel.certReq.isSome then cc.cred else none) sel = .ok 0 := by
     rw [hreq]; rfl
+  have hown : clientCheckOwnCert cs (if sel.certReq.isSome then cc.cred else none) sel = .ok () := by
+    rw [hreq]; rfl
   have heq : clientAccept12 cs cc sc o sel = .ok
       { version := sel.version, suite := sel.suite, group := sel.group, dhBits := sel.dhBits
         sigScheme := sel.sigScheme
@@ -759,8 +769,8 @@ theorem clientAccept12_forward {cs : Settings} {cc : ClientCfg} {sc : ServerCfg}
         psk := none, hrr := false } := by
     simp only [clientAccept12]
     rw [failIf_false_bind a1, failIf_false_bind a2, failIf_false_bind a3, failIf_false_bind a4,
-      failIf_false_bind a5, failIf_false_bind a6, ok_bind hcert, ok_bind hdh, ok_bind hcr, ok_bind hkex,
-      ok_bind hsig]
+      failIf_false_bind a5, failIf_false_bind a6, ok_bind hcert, ok_bind hdh, ok_bind hcr, ok_bind hown,
+      ok_bind hkex, ok_bind hsig]
     rfl
   exact ⟨_, heq, by simp [hreq], rfl⟩
 
